@@ -150,6 +150,49 @@ def check_idwords_stepid(ctx, only_stepid=False):
                 ctx.undec('R-STEPID', fmt, w, 'comparison not recognised: %s' % tt[:60])
 
 
+def check_scan_eof(ctx, rp, q, rule='R-SCANEOF'):
+    """a loop that scans records with <rf>.next() and continues on a condition over <rf>.record_size must be able to leave at end of
+    file: RecordFile.next() (read from its source) does not raise there and leaves record_size as it was, so such a loop never ends
+    on a file that stops before the record it is looking for (a truncated or single-step file)"""
+    from .. import paths as _paths
+    src = ctx.src
+    ff = src.mod(CAMX + 'FortranFileUtil.py')
+    nx = ff.func('RecordFile.next')
+    silent = False
+    for pth in _paths.function_paths(nx):
+        if pth.exit[0] == 'raise':
+            continue
+        moves = any(isinstance(c, ast.Call) and isinstance(c.func, ast.Attribute) and c.func.attr in ('_newrecord',) for st in pth.stmts for c in ast.walk(st)) or \
+            any(isinstance(st, ast.Assign) and any(isinstance(t, ast.Attribute) and t.attr == 'record_size' for t in st.targets) for st in pth.stmts)
+        if not moves:
+            silent = True
+    where = 'src/PseudoNetCDF/%s %s' % (rp, q)
+    fn = src.mod(rp).func(q)
+    n = 0
+    for lp in [st for st in iter_stmts(fn.body) if isinstance(st, ast.While)]:
+        nexts = [st for st in iter_stmts(lp.body) if isinstance(st, ast.Expr) and isinstance(st.value, ast.Call) and isinstance(st.value.func, ast.Attribute) and st.value.func.attr == 'next']
+        if not nexts or not any(isinstance(n_, ast.Attribute) and n_.attr == 'record_size' for n_ in ast.walk(lp.test)):
+            continue
+        n += 1
+        recv = norm(nexts[0].value.func.value)
+        # other ways out: a break / return / raise in the body, or a test that also looks at the result of next() / the position
+        leaves = any(isinstance(x, (ast.Break, ast.Return, ast.Raise)) for st in lp.body for x in ast.walk(st))
+        positional = any(isinstance(c, ast.Call) and isinstance(c.func, ast.Attribute) and c.func.attr in ('next', 'eof', 'tell') for c in ast.walk(lp.test)) or \
+            any(isinstance(n_, ast.Attribute) and n_.attr in ('length',) for n_ in ast.walk(lp.test))
+        stored = set(n_.id for st in lp.body for n_ in ast.walk(st) if isinstance(n_, ast.Name) and isinstance(n_.ctx, ast.Store))
+        varying = any(isinstance(n_, ast.Name) and n_.id in stored for n_ in ast.walk(lp.test))
+        oid = 'while %s' % norm(lp.test)[:50]
+        if not silent:
+            ctx.ok(rule, oid, where, 'RecordFile.next() raises or moves on every path')
+        elif leaves or positional or varying:
+            ctx.ok(rule, oid, where, 'the loop has an exit that does not depend on the record size alone')
+        else:
+            ctx.violation(Finding(rule, rp, q, lp, 'the scan `while %s: %s.next()` cannot end at end of file: RecordFile.next() returns False there and leaves record_size unchanged, so a file that stops '
+                                  'before the record the scan is looking for (cut inside the first time step, or holding a single step) makes the reader loop forever instead of raising' % (
+                                      norm(lp.test)[:50], recv)), oid=oid)
+    return n
+
+
 def check_windcount(ctx, rule='R-WINDCOUNT'):
     src = ctx.src
     # ---------------- R-WINDCOUNT: the memmap reader derives the step count from the bytes one step really occupies
@@ -433,6 +476,8 @@ def run(ctx):
                 ctx.violation(Finding('R-WINDSCAN', wr.relpath, 'wind.__gettimestep', st, 'the scan skips %s records but %s records lie between two time headers (as counted for the first '
                                       'step): it lands on a data/dummy record, stops, and files with more than two steps are cut short' % (got, inv)))
     check_windcount(ctx)
+    ctx.rule('R-SCANEOF', 'record scans driven by record_size can leave at end of file (RecordFile.next() is silent there)')
+    check_scan_eof(ctx, CAMX + 'wind/Read.py', 'wind.__gettimestep')
     # ---------------- R-EODUNIT: one end-of-day constant per record reader (the unit of its time values)
     ctx.rule('R-EODUNIT', 'record readers: every timediff/timeadd/timerange call of one class uses the same end-of-day value (24 for hours, 2400 for HHMM)')
     EODPOS = {'timediff': 2, 'timeadd': 2, 'timerange': 3}
